@@ -241,7 +241,14 @@ def run_mined(chk, rng, nblocks, w_seed):
                 rtxs.append(t)
         rb, real = world.assemble(ids[p], rtxs, par.ts + rng.choice([1, 30, 120]), rng.choice(world.keys)[1])
         prev = cs
-        cs = cs.add_block(real, rb.ts)
+        try:
+            cs = cs.add_block(real, rb.ts)
+        except Exception as e:
+            if not ref.block_codes(world.chain, rb, rb.ts):
+                chk.v("valid-block-on-stored-parent-refused", "arrival %d: a fully valid block (height %d, parent #%d %s) is refused by "
+                      "the validating entry point (%r): the branch it extends can never become the head" % (
+                          n, model.height[i], p, "= head" if p == model.head else "not the head", e), dict(wit, parents=list(parents)))
+            break
         world.cs = cs
         world.accept(rb, real, cs=cs)
         chk.c["validated_adds"] += 1
